@@ -65,40 +65,6 @@ func instantiate(s Scenario, r *rand.Rand, tok0 int) (b *Built, err error) {
 			s.Target.HasErr = true
 		}
 	}
-	if s.Mode == "redefine" && r.Intn(3) == 0 {
-		// the filters are options like any other: given at construction they apply to every Redefine of the function
-		defaults = append(defaults, filterArgs(s)...)
-		b.FiltersAtCtor = true
-	}
-	b.Defaults = defaults
-	// every other target is constructed from a private copy of the default options that the harness overwrites as soon
-	// as NewFunc has returned (the list belongs to the caller); the others share the array with a sibling function
-	private := r.Intn(2) == 0
-	if s.Mode != "convert" && s.Mode != "convcall" && s.Bad == "" && !private {
-		// a sibling function whose options are the same array, one element longer (as two functions configured from a
-		// common prefix with append are): nothing done with the target may change what the sibling was given
-		b.Sibling, _ = am.NewFunc(func(x sibT) int { return x.ID }, append(defaults, am.Typed(sibT{ID: sibID}))...)
-	}
-	if s.Mode != "convert" && s.Mode != "convcall" {
-		// a target with defaults is now and then constructed through NewFuncList
-		env.ViaList = s.Target.Form != "built" && len(defaults) > 0 && r.Intn(4) == 0
-		if private {
-			mine := append(make([]am.Arg, 0, len(defaults)), defaults...)
-			b.Target, err = env.Build(0, s.Target, mine...)
-			for i := range mine {
-				mine[i] = nil
-			}
-		} else {
-			b.Target, err = env.Build(0, s.Target, defaults...)
-		}
-		env.ViaList = false
-		if err != nil {
-			return b, fmt.Errorf("newfunc target: %w", err)
-		}
-	}
-	for j := s.NDef; j < len(s.Inputs); j++ {
-		b.ValArgs = append(b.ValArgs, apiArg(s.Inputs[j], vals[j], r.Intn(6)))
-	}
 	for i, c := range s.Convs {
 		cf, err := env.Build(i+1, c)
 		if err != nil {
@@ -124,6 +90,46 @@ func instantiate(s Scenario, r *rand.Rand, tok0 int) (b *Built, err error) {
 	}
 	for _, g := range s.Gens {
 		b.CnvArgs = append(b.CnvArgs, am.ConverterGen(env.genFunc(g)))
+	}
+	// now and then the converters are given to NewFunc as well (defaults of the target) instead of to the call
+	convsAtCtor := s.Mode == "call" && s.Bad == "" && !strings.HasPrefix(s.Family, "random/conc") && !strings.HasPrefix(s.Family, "C16") && r.Intn(4) == 0
+	if convsAtCtor {
+		defaults = append(defaults, b.CnvArgs...)
+		b.CnvArgs = nil
+	}
+	if s.Mode == "redefine" && r.Intn(3) == 0 {
+		// the filters are options like any other: given at construction they apply to every Redefine of the function
+		defaults = append(defaults, filterArgs(s)...)
+		b.FiltersAtCtor = true
+	}
+	b.Defaults = defaults
+	// every other target is constructed from a private copy of the default options that the harness overwrites as soon
+	// as NewFunc has returned (the list belongs to the caller); the others share the array with a sibling function
+	private := r.Intn(2) == 0 || convsAtCtor // (no sibling over a list that holds converters: it would be given them too)
+	if s.Mode != "convert" && s.Mode != "convcall" && s.Bad == "" && !private {
+		// a sibling function whose options are the same array, one element longer (as two functions configured from a
+		// common prefix with append are): nothing done with the target may change what the sibling was given
+		b.Sibling, _ = am.NewFunc(func(x sibT) int { return x.ID }, append(defaults, am.Typed(sibT{ID: sibID}))...)
+	}
+	if s.Mode != "convert" && s.Mode != "convcall" {
+		// a target with defaults is now and then constructed through NewFuncList
+		env.ViaList = s.Target.Form != "built" && len(defaults) > 0 && r.Intn(4) == 0
+		if private {
+			mine := append(make([]am.Arg, 0, len(defaults)), defaults...)
+			b.Target, err = env.Build(0, s.Target, mine...)
+			for i := range mine {
+				mine[i] = nil
+			}
+		} else {
+			b.Target, err = env.Build(0, s.Target, defaults...)
+		}
+		env.ViaList = false
+		if err != nil {
+			return b, fmt.Errorf("newfunc target: %w", err)
+		}
+	}
+	for j := s.NDef; j < len(s.Inputs); j++ {
+		b.ValArgs = append(b.ValArgs, apiArg(s.Inputs[j], vals[j], r.Intn(6)))
 	}
 	return b, nil
 }
@@ -471,6 +477,11 @@ func (b *Built) Execute(r *rand.Rand) {
 	case "call":
 		if s.Target.Form != "built" && s.Bad == "" && r.Intn(4) == 0 {
 			b.wrapperCall()
+		}
+		if len(args) == 0 && r.Intn(2) == 0 {
+			// everything the call needs was given to NewFunc: planning a redefinition first (without options either)
+			// changes nothing for the call that follows
+			b.Target.Redefine()
 		}
 		res := b.Target.Call(args...)
 		env.emit(b.classify(res, s.Phase0))
